@@ -42,7 +42,13 @@ class Adapter:
         try:
             if a == "Construct":
                 try:
-                    self.bm = self.BiMap({K(k): V(v) for k, v in ev["m"]})
+                    src = {K(k): V(v) for k, v in ev["m"]}
+                    self.bm = self.BiMap(src)
+                    twin = self.BiMap(src)             # a second map built from the same mapping object is independent of the first ...
+                    twin.insert_left(K(0), V(0)) if len(src) else None
+                    for kk, _ in list(twin.items()):
+                        twin.delete_left(kk)
+                    src.clear()                         # ... and what the caller does to the mapping afterwards does not reach either
                 except self.NotBijection:
                     return "NotBijection"
             elif a == "InsertLeft":
